@@ -443,7 +443,7 @@ func (c *Compiler) owningModule(root parse.Node) parse.Node {
 func (c *Compiler) getModuleAndReference(m, n parse.Node, targetType parse.NodeType) (parse.Node, parse.Node) {
 	// Assume an implicit local module reference until
 	// we learn otherwise.
-	targetModule := m
+	targetModule := c.owningModule(m)
 	name := n.Argument().String()
 	nameparts := strings.Split(name, ":")
 	if len(nameparts) > 2 {
@@ -459,6 +459,7 @@ func (c *Compiler) getModuleAndReference(m, n parse.Node, targetType parse.NodeT
 		if err != nil {
 			c.error(n, err)
 		}
+		targetModule = c.owningModule(targetModule)
 		name = nameparts[1]
 	}
 
@@ -564,7 +565,7 @@ func (c *Compiler) identityCheckCyclicRef(name string, ids map[string]parse.Node
 	assigned[name] = true
 
 	for _, nd := range ids[name].ChildrenByType(parse.NodeIdentity) {
-		nm := nd.Root().Name() + ":" + nd.Name()
+		nm := c.owningModule(nd.Root()).Name() + ":" + nd.Name()
 		c.identityCheckCyclicRef(nm, ids, assigned)
 	}
 
@@ -893,6 +894,10 @@ func (c *Compiler) ProcessModuleIncludes(m parse.Node, submodules map[string]par
 				c.error(g, err)
 			}
 		}
+		// Features and identities of a submodule are definitions of the
+		// module it belongs to
+		m.AddChildren(smod.ChildrenByType(parse.NodeFeature)...)
+		m.AddChildren(smod.ChildrenByType(parse.NodeIdentity)...)
 		m.AddChildren(smod.ChildrenByType(parse.NodeImport)...)
 		m.AddChildren(smod.ChildrenByType(parse.NodeDataDef)...)
 		m.AddChildren(smod.ChildrenByType(parse.NodeAugment)...)
@@ -1934,7 +1939,7 @@ func (c *Compiler) identityValues(cfgNode, node parse.Node, ident parse.Node, rt
 	strp := cfgNode.GetNodeModulename(cfgNode.Root()) + ":"
 
 	for _, id := range ident.ChildrenByType(parse.NodeIdentity) {
-		nm := id.Root().Name() + ":" + id.Name()
+		nm := c.owningModule(id.Root()).Name() + ":" + id.Name()
 		rname := strings.TrimPrefix(nm, strp)
 		i := schema.NewIdentity(id.GetNodeModulename(id.Root()),
 			id.GetNodeNamespace(id.Root(), c.modules),
